@@ -89,7 +89,7 @@ class Result:
 
 
 def argv(roots, log, kill_at=None, torn=None, inject=(), short=(), sched=None, tail=None, nosched=None,
-         delay=None, ficlone=False, timeout=60, stdout_prefix=None, all_in_op=False):
+         delay=None, ficlone=False, timeout=60, stdout_prefix=None, all_in_op=False, nosched_dirs=False):
     a = [build.ensure_sysmon(), "--log", log, "--timeout", str(timeout)]
     for r in roots:
         a += ["--root", r]
@@ -115,6 +115,8 @@ def argv(roots, log, kill_at=None, torn=None, inject=(), short=(), sched=None, t
         a += ["--stdout-prefix", stdout_prefix]
     if all_in_op:
         a.append("--all-in-op")
+    if nosched_dirs:
+        a.append("--nosched-dirs")
     a.append("--")
     return a
 
